@@ -83,6 +83,9 @@ func runC01(p *eng.Prog, r *eng.Report, tier string) {
 	c := &cx{p, r, tier}
 	callerSlicesNotRewritten(c, "C01.16", negSet(c, "C01.16"))
 	depthCountersDoNotWrap(c, "C01.20")
+	// C01.21 "a restart always begins with a fresh stream header": what Expect
+	// accepts as the header is the stream element of the stream namespace (C12.2)
+	c12ExpectAs(c, "C01.21")
 	c01CachedMandatoryFlag(c, "C01.17")
 	c01FeaturesConfiguredPerStep(c, "C01.18")
 	c01FeatureMatchedByName(c, "C01.19")
